@@ -415,7 +415,7 @@ POOL = {
     "gb_agg": (_q_gb_agg, {}, [("how", "min"), ("split_out", 2), ("nparts", 3)], {"sort_rows": True}),
     "reduce": (_q_reduce, {}, [("col", "b"), ("nparts", 3)], {}),
     "count": (_q_count, {}, [("nparts", 3)], {}),
-    "merge": (_q_merge, {}, [("how", "left"), ("nparts", 3), ("rparts", 1)], {"sort_rows": True}),
+    "merge": (_q_merge, {}, [("how", "left"), ("nparts", 3), ("rparts", 1)], {"sort_rows": "noindex"}),
     "merge_index": (_q_merge_index, {}, [("how", "left"), ("nparts", 2)], {"sort_rows": True}),
     "sort": (_q_sort, {}, [("by", "a"), ("ascending", False), ("npartitions", 3), ("nparts", 3)], {"tags": ["sort"]}),
     "sort_s": (_q_sort_s, {}, [("by", "b"), ("nparts", 4)], {"tags": ["sort"], "sort_rows": True}),
@@ -527,9 +527,10 @@ def jsonable(x):
 
 
 def canon_result(x, sort_rows=False):
+    """sort_rows: False | True (row order unspecified) | "noindex" (… and the index is a meaningless per-partition counter)"""
     from harness import e2e
 
-    return jsonable(e2e.canon_obj(x, sort_rows=sort_rows))
+    return jsonable(e2e.canon_obj(x, sort_rows=bool(sort_rows), drop_index=(sort_rows == "noindex")))
 
 
 def canon_divisions(divs):
@@ -589,12 +590,16 @@ def run_child(job: dict, env=None, timeout=600) -> dict:
     e["PYTHONDONTWRITEBYTECODE"] = "1"
     if env:
         e.update(env)
-    p = subprocess.run([PY, "-W", "ignore", "-c", "from harness import statepool; statepool.child_main()"],
-                       input=json.dumps(job), capture_output=True, text=True, timeout=timeout, env=e, cwd=ROOT)
-    lines = [ln for ln in p.stdout.splitlines() if ln.startswith("@@RESULT@@")]
-    if p.returncode != 0 or not lines:
-        raise RuntimeError(f"child failed rc={p.returncode}: {p.stderr[-1500:]}")
-    return json.loads(lines[-1][len("@@RESULT@@"):])
+    last = ""
+    for attempt in range(2):
+        p = subprocess.run([PY, "-W", "ignore", "-c", "from harness import statepool; statepool.child_main()"],
+                           input=json.dumps(job), capture_output=True, text=True, timeout=timeout, env=e, cwd=ROOT)
+        lines = [ln for ln in p.stdout.splitlines() if ln.startswith("@@RESULT@@")]
+        if lines:
+            # (a non-zero exit status after the answer was written — pyarrow threads aborting at interpreter shutdown — is harmless)
+            return json.loads(lines[-1][len("@@RESULT@@"):])
+        last = f"rc={p.returncode}: {p.stderr[-1500:]}"
+    raise RuntimeError(f"child failed twice, {last}")
 
 
 def child_main():
@@ -610,7 +615,7 @@ def child_main():
             try:
                 coll = build(it["qid"], job["pq"], it.get("variation"))
                 out[it["id"]] = observe(coll, tuple(it.get("what", ORACLE_ORDER)),
-                                        sort_rows=bool(flags(it["qid"]).get("sort_rows")))
+                                        sort_rows=flags(it["qid"]).get("sort_rows", False))
             except Exception as e:  # noqa: BLE001
                 out[it["id"]] = {"build_error": type(e).__name__, "msg": str(e)[:200]}
     elif kind == "names":
@@ -634,7 +639,7 @@ def child_main():
             except Exception as e:  # noqa: BLE001
                 out[it["id"]] = {"load_error": type(e).__name__, "msg": str(e)[:300]}
                 continue
-            res.update(observe_loaded(obj, bool(it.get("sort_rows"))))
+            res.update(observe_loaded(obj, it.get("sort_rows", False)))
             out[it["id"]] = res
     elif kind == "history":
         from harness.props import c15
@@ -643,6 +648,7 @@ def child_main():
     else:
         out = {"error": "unknown job kind"}
     sys.stdout.write("\n@@RESULT@@" + json.dumps(out) + "\n")
+    sys.stdout.flush()
 
 
 def observe_loaded(obj, sort_rows):
